@@ -641,6 +641,79 @@ impl ZooVal for Strings {
     }
 }
 
+/// Values that END in a collection read through a special path (nothing follows, so a wrong element / byte count
+/// is not masked by the next field failing to parse).
+#[derive(Savefile, Debug, PartialEq, Clone)]
+pub struct BitsLast {
+    pub name: String,
+    pub bv: BitVec,
+}
+impl ZooVal for BitsLast {
+    fn gen(rng: &mut Rng, sc: u8, hint: usize) -> Self {
+        let b = Bits::gen(rng, sc, hint);
+        BitsLast { name: b.name, bv: b.bv }
+    }
+    fn walk(&self, w: &mut Walker) {
+        let b = Bits { bv: self.bv.clone(), name: self.name.clone(), after: 0 };
+        // clone() of a BitVec copies storage and nbits verbatim; the checks are the same as for Bits
+        b.walk(w);
+    }
+}
+#[derive(Savefile, Debug, PartialEq, Clone)]
+pub struct PackedLast {
+    pub tag: u16,
+    pub av: ArrayVec<u32, 8>,
+    pub pts: Vec<PackedPt>,
+}
+impl ZooVal for PackedLast {
+    fn gen(rng: &mut Rng, sc: u8, hint: usize) -> Self {
+        let p = PackedVec::gen(rng, sc, hint);
+        let s = Smalls::gen(rng, sc.min(2), hint);
+        PackedLast { tag: p.tail, av: s.av, pts: p.pts }
+    }
+    fn walk(&self, w: &mut Walker) {
+        w.prim(2);
+        if self.av.len() > 8 {
+            w.problem(format!("oversized:ArrayVec<u32,8> len {}", self.av.len()));
+        }
+        w.collection("ArrayVec<u32,8>", self.av.len(), 4);
+        if w.collection("Vec<PackedPt>", self.pts.len(), 8) {
+            let mut acc = 0u64;
+            for p in &self.pts {
+                acc = acc.wrapping_add(p.x as u64 ^ p.y as u64);
+            }
+            std::hint::black_box(acc);
+            w.elements_touched += self.pts.len() as u64;
+        }
+    }
+}
+#[derive(Savefile, Debug, PartialEq, Clone)]
+pub struct ArrLast {
+    pub n: u8,
+    pub names: [String; 3],
+    pub av: ArrayVec<u8, 4>,
+}
+impl ZooVal for ArrLast {
+    fn gen(rng: &mut Rng, sc: u8, hint: usize) -> Self {
+        let k = (len_for(rng, sc.min(2), hint)).min(4);
+        let mut av = ArrayVec::new();
+        for _ in 0..k {
+            av.push(rng.next_u64() as u8);
+        }
+        ArrLast { n: rng.next_u64() as u8, names: [gen_string(rng, sc.min(2), 0), gen_string(rng, 1, 0), String::new()], av }
+    }
+    fn walk(&self, w: &mut Walker) {
+        w.prim(1);
+        for s in &self.names {
+            w.collection("String", s.len(), 1);
+        }
+        if self.av.len() > 4 {
+            w.problem(format!("oversized:ArrayVec<u8,4> len {}", self.av.len()));
+        }
+        w.collection("ArrayVec<u8,4>", self.av.len(), 1);
+    }
+}
+
 /// A value that ENDS in one long string (sizes cross the 4 KiB / 64 KiB thresholds a size-dependent read path
 /// would use); nothing follows the string, so a short read of it is not caught by a later field.
 #[derive(Savefile, Debug, PartialEq, Clone)]
@@ -869,6 +942,9 @@ pub fn subjects() -> Vec<&'static dyn Subject> {
         subj!(BigBlob, "BigBlob"),
         subj!(Strings, "Strings"),
         subj!(Text, "Text"),
+        subj!(BitsLast, "BitsLast"),
+        subj!(PackedLast, "PackedLast"),
+        subj!(ArrLast, "ArrLast"),
     ]
 }
 pub fn subject(name: &str) -> &'static dyn Subject {
